@@ -214,9 +214,8 @@ Qed.
 Lemma split_list_dec : forall n, split_list (dec_of_nat n) = [dec_of_nat n].
 Proof. intros n. apply split_list_single. apply dec_of_nat_plain. Qed.
 
-Lemma argc_gt2_nonnil : forall (l : list str), l <> [] ->
-  (2 <? N.of_nat (S (S (length l))))%N = true.
-Proof. intros l H. destruct l; [contradiction|]. cbn [length]. apply N.ltb_lt. lia. Qed.
+Lemma argc_gt2_S : forall n, (2 <? N.of_nat (S (S (S n))))%N = true.
+Proof. intros n. apply N.ltb_lt. lia. Qed.
 
 Lemma take_command_cons : forall x r, is_kw x = false -> take_command (x :: r) = x :: take_command r.
 Proof. intros x r H. cbn [take_command]. rewrite H. reflexivity. Qed.
@@ -294,8 +293,11 @@ Lemma first_command_hit : forall c r,
   str_eqb c (s"COMMAND") = true -> first_command (c :: r) = Some (take_command r).
 Proof. intros c r H. cbn [first_command]. rewrite H. reflexivity. Qed.
 
-Ltac run := repeat (progress (ev; compute_closed)).
-
+Ltac run :=
+  repeat (progress (ev; cbn [length];
+                    rewrite ?split_list_dec, ?parse_num_dec_of_nat, ?argc_gt2_S;
+                    rewrite ?split_list_join by assumption;
+                    compute_closed)).
 
 Ltac finish Hexe :=
   rewrite Hexe; rewrite first_command_hit by (vm_compute; reflexivity); take_cmd;
@@ -312,8 +314,7 @@ Ltac prefix_of t :=
 
 Ltac split_opts :=
   first
-  [ rewrite split_list_join by assumption
-  | match goal with
+  [ match goal with
     | |- context [split_list ?t] =>
         lazymatch t with
         | context [join semi ?l] =>
@@ -345,19 +346,16 @@ Proof.
   cbn [gen_rst_def fn_params fn_body bind_params length skipn].
   norm_literals.
   let k := eval vm_compute in (s"CMINX_EXECUTABLE") in change (lookup_var globals k = exe) in Hexe.
-  destruct (isdir dir) eqn:Hd; (destruct extra as [|x0 xs]; [| assert (Hnn : x0 :: xs <> []) by discriminate; remember (x0 :: xs) as extra eqn:Hex; clear Hex]).
-  - ev. rewrite Hd. ev. rewrite split_list_dec, parse_num_dec_of_nat. cbn [length]. run.
-    finish Hexe.
-  - ev. rewrite Hd. ev. rewrite split_list_dec, parse_num_dec_of_nat. run.
-    rewrite (argc_gt2_nonnil extra Hnn). run.
-    split_opts.
-    finish Hexe.
-  - ev. rewrite Hd. ev. rewrite split_list_dec, parse_num_dec_of_nat. cbn [length]. run.
-    finish Hexe.
-  - ev. rewrite Hd. ev. rewrite split_list_dec, parse_num_dec_of_nat. run.
-    rewrite (argc_gt2_nonnil extra Hnn). run.
-    split_opts.
-    finish Hexe.
+  destruct (isdir dir) eqn:Hd;
+    (destruct extra as [|x0 xs];
+     [| assert (Hnn : x0 :: xs <> []) by discriminate;
+        assert (Hkextra' := Hkextra); cbn [forallb] in Hkextra';
+        apply andb_true_iff in Hkextra'; destruct Hkextra' as [Hkx0 Hkxs];
+        unfold not_kw in Hkx0; apply negb_true_iff in Hkx0]).
+  - ev. rewrite Hd. run. finish Hexe.
+  - ev. rewrite Hd. run. try split_opts. finish Hexe.
+  - ev. rewrite Hd. run. finish Hexe.
+  - ev. rewrite Hd. run. try split_opts. finish Hexe.
 Qed.
 
 Corollary gen_rst_launch_expected : forall isdir globals dir out extra,
